@@ -351,13 +351,21 @@ def check_api(case):
   # a registered method of a registered class: addressed by 'Class.method' spellings or by the
   # function object itself -- one key
   import sys, types  # pylint: disable=g-import-not-at-top,multiple-imports
-  hostmod = types.ModuleType('c08host')
+  hostmod = types.ModuleType('c08.host')
   hostmod.gin = gin
-  sys.modules['c08host'] = hostmod
-  exec('class Trainer:\n  @gin.register\n  def step(self, p="dp", q="dq"):\n'  # pylint: disable=exec-used
-       '    return {"who": "step", "p": p, "q": q}\n', hostmod.__dict__)
+  sys.modules['c08.host'] = hostmod
+  src = ('class Trainer:\n  @gin.register\n  def step(self, p="dp", q="dq"):\n'
+         '    return {"who": __name__, "p": p, "q": q}\n')
+  exec(src, hostmod.__dict__)  # pylint: disable=exec-used
   gin.register(hostmod.Trainer)
+  # ... and a class of the same name, with a method of the same name, in another module
+  othermod = types.ModuleType('c08.other')
+  othermod.gin = gin
+  sys.modules['c08.other'] = othermod
+  exec(src, othermod.__dict__)  # pylint: disable=exec-used
+  gin.register(othermod.Trainer)
   step_obj = hostmod.Trainer.__dict__['step']
+  touched = {'refs': False}
   mmodel = {}   # scope -> {param: value}
 
   def moverlay(scope):
@@ -501,12 +509,14 @@ def check_api(case):
                 got[param] == expect_value(scope, target, param), 'by-object',
                 lambda: f'{target} in {scope!r} -> {got} / {got2}')
       elif kind == 'ref':
+        touched['refs'] = True
         gin.parse_config(f'zzcons.consumer.x = @{scoped(scope, sp)}()')
         got = cons()
         require(got['who'] == target and got[param] == expect_value(scope, target, param),
                 'reference', lambda: f'@{scoped(scope, sp)}() -> {got}')
         used.setdefault((scope, target, param), set()).add((kind, sp))
       elif kind == 'ref_obj':
+        touched['refs'] = True
         gin.parse_config(f'zzcons.consumer.x = @{scoped(scope, sp)}')
         got = cons()()
         require(got['who'] == target and got[param] == expect_value(scope, target, param),
@@ -514,7 +524,9 @@ def check_api(case):
       labels.add('read-ok')
     elif kind == 'method':
       _, j, scope, param, val, how = op
-      sp = ['Trainer.step', 'c08host.Trainer.step'][j % 2]
+      sp = ['host.Trainer.step', 'c08.host.Trainer.step'][j % 2]
+      expect_error(lambda: gin.bind_parameter((scope, 'Trainer.step', param), val),
+                   'Trainer.step names the method of two classes')
       if how % 3 == 0:
         gin.bind_parameter((scope, sp, param), val)
       elif how % 3 == 1:
@@ -525,13 +537,27 @@ def check_api(case):
       want = moverlay(scope)
       with gin.config_scope(scope):
         by_obj = gin.get_bindings(step_obj)
-        by_name = gin.get_bindings('Trainer.step')
-        called = gin.get_configurable('c08host.Trainer')().step()
+        by_name = gin.get_bindings('host.Trainer.step')
+        called = gin.get_configurable('c08.host.Trainer')().step()
       require(by_obj == want and by_name == want, 'method-by-object',
               lambda: f'scope {scope!r}: get_bindings(<function step>) -> {by_obj}, '
                       f"get_bindings('Trainer.step') -> {by_name}, model {want}")
-      require({k: called[k] for k in want} == want, 'method-call', lambda: f'{called} vs {want}')
+      require({k: called[k] for k in want} == want and called['who'] == 'c08.host', 'method-call',
+              lambda: f'{called} vs {want}')
+      other = gin.get_configurable('c08.other.Trainer')().step()
+      require(other == {'who': 'c08.other', 'p': 'dp', 'q': 'dq'}, 'method-of-other-class',
+              lambda: f'{other}')
       labels.add('registered-method-by-object')
+      if not touched['refs'] and not late:
+        # the names config_str reports resolve back: its text parses (into the same configuration)
+        text = gin.config_str()
+        before = state()
+        try:
+          gin.parse_config(text)
+        except Exception as e:  # pylint: disable=broad-except
+          raise Violation('reported-name-does-not-resolve', f'{type(e).__name__}: {e}\n{text}')
+        require(state() == before, 'config_str-reparse-changed-config', text)
+        labels.add('config_str-names-resolve')
     elif kind == 'unknown':
       _, sp, api = op
       if m_match(names, sp):
